@@ -7,6 +7,7 @@
    same odd number is the same blank node as a term and as a graph name),
    graph id 0 = the default graph.  [iso A B]: B is A with its blank nodes
    renamed injectively.  [wfd D]: the store lists every graph that holds a triple. *)
+From RV Require Import Codec.Model Codec.Hext Routing.Text Routing.TextProofs Routing.HextText Routing.TrixTree.
 From RV Require Import Routing.Model Routing.Proofs Routing.Relabel Routing.Trix Routing.Trig Routing.Patch.
 
 (* ---- the comparison used by the specification checker ---- *)
@@ -142,6 +143,98 @@ Print Assumptions C06_patch_diff_prefix_refuted.
 Theorem C06_spec_ok_model : forall c, wf c -> kf c = 0%N -> spec_ok c (model_obs c) = true.
 Proof. exact spec_ok_model. Qed.
 Print Assumptions C06_spec_ok_model.
+
+(* ================================================================== text level
+   N-Quads and RDF Patch documents as strings of code points, on top of C03's
+   model of the N-Triples term spelling and readline (coq/Codec).  A text-level
+   quad is (triple, None | Some graph name); [good_tquad]: what rdflib accepts
+   when writing (valid IRIs with a scheme, legal labels / language tags).  The
+   reader returns blank-node LABELS; the label policy is the routing level above. *)
+
+(* one statement line of the N-Quads writer is read back by parseline as that quad *)
+Theorem C06_nquads_line : forall q, good_tquad q = true -> nq_parseline (nq_line q) = Got q.
+Proof. exact nq_parseline_line. Qed.
+Print Assumptions C06_nquads_line.
+
+(* every well-formed dataset, any buffer size of readline: the document written by
+   NQuadsSerializer.serialize is read back as exactly the quads of the dataset *)
+Theorem C06_nquads_text : forall n, (1 <= n)%nat -> forall qs, forallb good_tquad qs = true ->
+  exists s, nq_doc qs = Some s /\ nq_parse_doc n s = Some qs.
+Proof. exact nq_text_roundtrip. Qed.
+Print Assumptions C06_nquads_text.
+
+(* header rows, TX, A / D rows (N-Triples rows for the default graph, N-Quads rows
+   otherwise), TC: read back as exactly the rows.  [patch_ok]: no IRI begins with '_'
+   (the patch reader takes "<_" for a labelled blank node; no legal IRI does) *)
+Theorem C06_patch_text : forall n, (1 <= n)%nat -> forall hid hprev rs,
+  h_no_nl hid = true -> h_no_nl hprev = true -> forallb good_prow rs = true ->
+  exists s, patch_doc hid hprev rs = Some s /\ patch_parse_doc n s = Some rs.
+Proof. exact patch_text_roundtrip. Qed.
+Print Assumptions C06_patch_text.
+
+(* apply (read (write (diff a b))) a = b, at text level, for every pair of datasets *)
+Theorem C06_patch_text_diff_apply : forall n, (1 <= n)%nat -> forall hid hprev a b,
+  h_no_nl hid = true -> h_no_nl hprev = true ->
+  forallb good_tquad a = true -> forallb good_tquad b = true ->
+  forallb patch_ok a = true -> forallb patch_ok b = true ->
+  exists s rs, patch_doc hid hprev (diff_rows a b) = Some s /\ patch_parse_doc n s = Some rs
+               /\ forall q, In q (apply_prows rs a) <-> In q b.
+Proof. exact patch_text_diff_apply. Qed.
+Print Assumptions C06_patch_text_diff_apply.
+
+Theorem C06_text_spec_model : forall c, tx_wf c = true -> tx_spec c (tx_model c) = true.
+Proof. exact tx_spec_model. Qed.
+Print Assumptions C06_text_spec_model.
+
+Theorem C06_text_spec_reading_nquads : forall qs text back,
+  forallb good_tquad qs = true -> tx_spec (NqWrite qs) (ObsNq text back) = true ->
+  exists t r, text = Some t /\ back = Some r /\ forall q, In q r <-> In q qs.
+Proof. exact tx_spec_reading_nq. Qed.
+Print Assumptions C06_text_spec_reading_nquads.
+
+Theorem C06_text_spec_reading_patch : forall hid hprev a b text applied,
+  tx_wf (PtWrite hid hprev a b) = true -> tx_spec (PtWrite hid hprev a b) (ObsPt text applied) = true ->
+  exists t r, text = Some t /\ applied = Some r /\ forall q, In q r <-> In q b.
+Proof. exact tx_spec_reading_patch. Qed.
+Print Assumptions C06_text_spec_reading_patch.
+
+(* ---- HexTuples rows of datasets (row = the six strings handed to json; coq/Codec/Hext.v for the triple part) *)
+
+(* a row with its graph column is read back as the quad; a simple literal comes back as xsd:string *)
+Theorem C06_hext_row : forall q, hext_good q = true -> hext_parse (hext_row_q q) = Some (hext_norm_q q).
+Proof. exact hext_row_q_roundtrip. Qed.
+Print Assumptions C06_hext_row.
+
+(* every well-formed dataset: the rows written (the default graph's twice) are read back as its quads *)
+Theorem C06_hext_text : forall qs, forallb hext_good qs = true ->
+  exists back, hext_read (hext_doc qs) = Some back /\ forall q, In q back <-> In q (map hext_norm_q qs).
+Proof. exact hext_text_roundtrip. Qed.
+Print Assumptions C06_hext_text.
+
+Theorem C06_hext_text_spec_model : forall c, hq_spec c (hq_model c) = true.
+Proof. exact hq_spec_model. Qed.
+Print Assumptions C06_hext_text_spec_model.
+
+(* ---- TriX at the level of the XML tree *)
+
+(* the tree _writeGraph/_writeTriple build is read by the TriXHandler state machine as the
+   graphs of the dataset: IRI-named graphs under their name, blank-node-named graphs
+   as ANONYMOUS graphs (F17, visible in [expect_doc]).  Partial: IRIs must not begin or
+   end with a character str.strip() removes (F20). *)
+Theorem C06_trix_tree_partial : forall gs, forallb trix_wf gs = true -> forallb trix_ok gs = true ->
+  rd_doc (wr_doc gs) = Some (expect_doc gs).
+Proof. exact trix_tree_roundtrip. Qed.
+Print Assumptions C06_trix_tree_partial.
+
+Theorem C06_trix_tree_refuted :
+  forallb trix_wf f20_witness = true /\ xt_kf (XtWrite f20_witness) = 1%N
+  /\ xt_spec (XtWrite f20_witness) (xt_model (XtWrite f20_witness)) = false.
+Proof. exact trix_strip_refuted. Qed.
+Print Assumptions C06_trix_tree_refuted.
+
+Theorem C06_trix_tree_spec_model : forall c, xt_wf c = true -> xt_kf c = 0%N -> xt_spec c (xt_model c) = true.
+Proof. exact xt_spec_model. Qed.
+Print Assumptions C06_trix_tree_spec_model.
 
 (* non-vacuity: two named graphs (one IRI-named, one blank-node-named), an empty
    named graph, a triple present in three graphs, a blank node shared by the
